@@ -21,7 +21,12 @@ func gen(r *h.Rand, tier string, emit func([]string)) {
 		g := shardh.NewG(r)
 		g.Meas = [][]string{{"cpu", "mem"}, {"m"}, {"cpu", "mem", "m3"}}[r.Intn(3)]
 		g.Fields = [][]string{{"a", "b"}, {"a", "b", "c", "v"}, {"v"}}[r.Intn(3)]
-		var ops []string
+		// a sentinel series that is never dropped: Engine.deleteSeriesRange returns
+		// early (without touching index or field set) when the engine holds nothing
+		ops := []string{"w zz|-|s:i:1|0"}
+		if r.Chance(0.1) {
+			ops = nil // ... and a few cases without it
+		}
 		batch := func() string {
 			inv := h.Pick(r, []float64{0, 0.2, 0.5})
 			return g.Batch(1+r.Intn(4), inv)
